@@ -244,6 +244,52 @@ func inlineHelpers(pkgs []*ssa.Package, keep func(f *ssa.Function) bool) func(f 
 	}
 }
 
+// publicHelper: an exported function that is a helper which happens to be public rather than an entry point
+// in its own right: it does not lead back to root, and it and everything it calls in the module is small,
+// straight-line code without reflection (`Validate(bytes) error` extracted from the decoder, `IsNumeric`).
+// Walks that keep exported functions visible as events still see through these.
+func publicHelper(f, root *ssa.Function, stop ...func(*ssa.Function) bool) bool {
+	if f == nil || f.Blocks == nil || f.Object() == nil || !f.Object().Exported() || f == root {
+		return false
+	}
+	seen := map[*ssa.Function]bool{}
+	instrs := 0
+	var ok func(g *ssa.Function) bool
+	ok = func(g *ssa.Function) bool {
+		if seen[g] {
+			return true
+		}
+		seen[g] = true
+		if g == root || len(seen) > 8 {
+			return false
+		}
+		for _, b := range g.Blocks {
+			instrs += len(b.Instrs)
+			for _, s := range b.Succs {
+				if s.Dominates(b) {
+					return false // a loop
+				}
+			}
+		}
+		if instrs > 400 {
+			return false
+		}
+		for _, c := range staticCallees(g) {
+			if c.Pkg != nil && c.Pkg.Pkg.Path() == "reflect" {
+				return false
+			}
+			if len(stop) > 0 && stop[0](c) {
+				continue // stays an event of the walk that asks
+			}
+			if inModule(c) && c.Blocks != nil && !ok(c) {
+				return false
+			}
+		}
+		return true
+	}
+	return ok(f)
+}
+
 // reachesCall: fn or an in-module static callee (transitively, closures included) calls a function for
 // which pred holds.
 func reachesCall(fn *ssa.Function, pred func(name string) bool, seen map[*ssa.Function]bool) bool {
